@@ -127,6 +127,22 @@ func (e *Engine) ownerUnit(prop string) *Unit {
 					}
 					if !keyed {
 						hit(x.Pos(), o.Type+" (unkeyed literal)")
+					} else {
+						// a keyed literal that leaves an owned field out gives it the zero value: a value of the type made
+						// without going through the functions that establish what the fields hold
+						for v := range fields {
+							named := false
+							for _, el := range x.Elts {
+								if kv, ok := el.(*ast.KeyValueExpr); ok {
+									if id, ok := kv.Key.(*ast.Ident); ok && info.Uses[id] == types.Object(v) {
+										named = true
+									}
+								}
+							}
+							if !named {
+								hit(x.Pos(), o.Type+"."+v.Name()+" (literal leaves it zero)")
+							}
+						}
 					}
 				}
 				return true
